@@ -1,4 +1,5 @@
 import SwcVerif.Props.C19
+import SwcVerif.Props.C19Gen
 #print axioms C19.getIdx_spec
 #print axioms C19.step_len
 #print axioms C19.load_at_most_once
@@ -11,3 +12,13 @@ import SwcVerif.Props.C19
 #print axioms C19.chain_index
 #print axioms C19.chain_index_neg
 #print axioms C19.nest_index
+#print axioms RefinePop.getIdx_refines
+#print axioms RefinePop.nest_refines
+#print axioms RefinePop.bsearch_refines
+#print axioms RefinePop.load_refines
+#print axioms RefinePop.getitem_refines
+#print axioms C19.generated_chain_init
+#print axioms C19.generated_chain_len
+#print axioms C19.generated_chain_getitem
+#print axioms C19.genGets_refines
+#print axioms C19.generated_load_at_most_once
